@@ -60,7 +60,7 @@ CSSDo(s, c) ==
                        [] OTHER -> s
     [] OTHER -> [s EXCEPT !.m = "bu"]     \* "bue"
 
-CSSStep(s, c) == CSSDo([s EXCEPT !.o = <<>>], c)
+CSSStep(s, c) == CSSDo(IF s.o = <<>> THEN s ELSE [s EXCEPT !.o = <<>>], c)
 CSSSlot(s) ==
   CASE s.m \in {"code", "sl", "esc"} -> "css-code"
     [] s.m \in {"str", "stre"} -> IF s.q = 34 THEN "css-string-dq" ELSE "css-string-sq"
